@@ -38,7 +38,50 @@ def prepare_process():
     warnings.simplefilter("ignore")
     from .storage import install_sql_seam
     install_sql_seam()
+    _fix_ticket_lengths()
     gc.disable()  # collected explicitly between runs: no finaliser fires mid-run
+
+
+_tickets_fixed = False
+
+
+def _fix_ticket_lengths():
+    """OpenSSL's stateless TLS 1.3 session tickets have a length that varies by
+    16 bytes from handshake to handshake (ASN.1 integers + block padding), which
+    would make ciphertext offsets - and with them exact replay - random.  No
+    property depends on session resumption, so in simulation server contexts of
+    the ssl module send no tickets and pyOpenSSL contexts send stateful
+    (fixed-size) ones.  Applied at the library seam so that contexts created
+    inside the code under test (start_server) are covered too."""
+    global _tickets_fixed
+    if _tickets_fixed:
+        return
+    _tickets_fixed = True
+    import ssl
+    orig_load = ssl.SSLContext.load_cert_chain
+
+    def load_cert_chain(self, *a, **kw):
+        r = orig_load(self, *a, **kw)
+        try:
+            if self.protocol == ssl.PROTOCOL_TLS_SERVER:
+                self.num_tickets = 0
+        except Exception:
+            pass
+        return r
+    ssl.SSLContext.load_cert_chain = load_cert_chain
+    try:
+        from OpenSSL import SSL
+        orig_init = SSL.Context.__init__
+
+        def ctx_init(self, *a, **kw):
+            orig_init(self, *a, **kw)
+            try:
+                self.set_options(SSL.OP_NO_TICKET)
+            except Exception:
+                pass
+        SSL.Context.__init__ = ctx_init
+    except Exception:
+        pass
 
 
 @contextlib.contextmanager
